@@ -316,7 +316,9 @@ Proof.
       destruct o; try (apply Hexp; exact Hp); try discriminate.
       destruct (inside p0 _); [exact Hp|discriminate]. }
   destruct Bpos as [Bpos1 Bpos2].
-  rewrite B101, B801, B102, B1701, B103, Bpos1,
+  assert (B802 : bad_802 (fst (step beh st o)) o = false).
+  { destruct o; reflexivity || contradiction. }
+  rewrite B101, B801, B102, B1701, B103, Bpos1, B802,
           (erase_clause' st v o S Hwf), (modes_clause st v o S Hwf Hm), (resend_clause st o).
   cbn [negb andb fail_if os_fail os_model os_vt os_expect].
   split; [reflexivity|]. split; [|reflexivity].
@@ -342,7 +344,7 @@ Proof.
     by exact (sync_truthful _ _ _ S').
   rewrite B101, B801.
   cbn [bad_102 bad_1701 bad_103 op_elements pos_result has_ctl positions_ok bad_901 bad_1101 bad_1301
-       negb andb fst snd fail_if next_expect].
+       bad_802 step fst snd ts_cur ts_saved negb andb fail_if next_expect].
   split; [reflexivity|]. split; [|reflexivity].
   split; [exact S'|]. intros p Hp. discriminate.
 Qed.
@@ -447,7 +449,7 @@ Proof.
   intros S F Hsz Hwf Hw.
   set (st := os_model s) in *. set (v := os_vt s) in *. set (lf := os_frame s) in *.
   pose proof (draw_correct cfg beh Huni (mkScreen lf) st v c S Hsz Hwf (fun _ => F) (or_introl Hw)) as H.
-  cbv zeta in H. destruct H as (S' & F' & _ & Hsz' & Htr).
+  cbv zeta in H. destruct H as (S' & F' & _ & Hsz' & Htr & Hmo).
   pose proof (new_trace_app v _ _ Htr) as Hnt.
   unfold oracle_step. cbv zeta. fold v. fold st. fold lf.
   unfold v_after. cbn [o_op o_bytes o_st draw_obs]. rewrite Hnt.
@@ -470,7 +472,9 @@ Proof.
   { destruct ((cw c =? cw lf) && (ch c =? ch lf)) eqn:Es; [|reflexivity].
     destruct (list_eqb element_eqb (grid lf) (grid c)) eqn:Eg; [|reflexivity].
     unfold bytes. rewrite (same_grid_silent lf st c Es Eg). reflexivity. }
-  rewrite B101, B801, B399, B301, B401, B401b.
+  apply modes_proj in Hmo as (M1 & M2 & M3 & M4 & M5).
+  rewrite B101, B801, B399, B301, B401, B401b, M1, M2, M3, M4, M5.
+  rewrite !Bool.eqb_reflx, bytes_eqb_refl.
   rewrite !andb_false_r. cbn [negb andb fail_if os_fail os_model os_vt os_frame].
   split; [reflexivity|]. split.
   - rewrite <- (draw_state lf st c). exact S'.
